@@ -31,6 +31,8 @@ def main():
         return 2
     spec = REGISTRY[prop]
     sw = Stopwatch()
+    run = None
+    proof = None
     try:
         import framework
         import families
@@ -70,6 +72,12 @@ def main():
         return 2
     except Exception:
         traceback.print_exc()
+        if run is not None and proof is not None and run.violations:
+            # the harness stumbled over behaviour it did not expect AFTER the oracle had already found failing inputs:
+            # those are real and are reported (the crash itself is noted in the evidence)
+            run.notes.append("the harness crashed after recording these violations: " + traceback.format_exc()[-400:])
+            import framework as _fw
+            return _fw.finish(run, spec, proof, sw)
         print("INFRA-ERROR", prop, "harness crashed")
         return 2
 
